@@ -13,7 +13,7 @@
     heatat T | heatendat T
     quiet 0|1           1: plain polls (no transition, nothing persisted, no reset) are not printed
       -> "R t what pump dur persisted reset" per handler, then "S phase now due pump onToday dur j0 ndays"
-    days  -> "D onToday full ..." one line per finished day, oldest first
+    days  -> "D on full plain dur u lb ub cyc n j" one line per finished day (oldest first; the ghost bounds of C10_quota_whole_day_partial), then "D onToday open"
   C11 ops:
     disp T1 T2 ...      topics fd|ht|wc|ds delivered to a fresh dispatcher -> "A 0/1 ..." handler called?
     counter Q ev ...    ev = a<d> | k | r   -> "C total retained pubs(oldest first)..."
